@@ -1047,46 +1047,14 @@ class Program:
             return type(v)(elts=elts, ctx=ast.Load())
         return v
 
-    def is_respelling(self, f):
+    def is_respelling(self, f, arg=None):
         """f(text) returns its argument character by character, each one
-        either as it is or as a backslash escape computed from its code
-        point only: `return ''.join(c if <test of c> else <escape of
-        ord(c)> for c in text)`.  What a reader of the escapes gets back is
-        the argument: for rules about *what* is written, f(x) is x."""
-        cache = self.__dict__.setdefault('_respell', {})
-        if f.qual in cache:
-            return cache[f.qual]
-        ok = False
-        from .util import inert_stmt
-        body = [b for b in f.node.body if not inert_stmt(b)]
-        if len(f.params) == 1 and len(body) == 1 and isinstance(
-                body[0], ast.Return) and isinstance(body[0].value, ast.Call):
-            c = body[0].value
-            if isinstance(c.func, ast.Attribute) and c.func.attr == 'join' \
-                    and isinstance(c.func.value, ast.Constant) and \
-                    c.func.value.value == '' and len(c.args) == 1 and \
-                    isinstance(c.args[0], (ast.GeneratorExp, ast.ListComp)) \
-                    and len(c.args[0].generators) == 1:
-                g = c.args[0].generators[0]
-                elt = c.args[0].elt
-                if isinstance(g.target, ast.Name) and isinstance(
-                        g.iter, ast.Name) and g.iter.id == f.params[0] and \
-                        not g.ifs and isinstance(elt, ast.IfExp) and \
-                        isinstance(elt.body, ast.Name) and \
-                        elt.body.id == g.target.id:
-                    v = g.target.id
-                    names = {n.id for n in ast.walk(elt)
-                             if isinstance(n, ast.Name)}
-                    lits = [n.value for n in ast.walk(elt.orelse)
-                            if isinstance(n, ast.Constant)
-                            and isinstance(n.value, str) and n.value]
-                    calls = {ast.unparse(n.func) for n in ast.walk(elt)
-                             if isinstance(n, ast.Call)}
-                    ok = names <= {v, 'ord'} and calls <= {'ord'} and \
-                        bool(lits) and all(x.startswith('\\')
-                                           for x in lits)
-        cache[f.qual] = ok
-        return ok
+        either as it is or as a backslash escape of its code point, and what
+        a YAML reader gets back is the argument (respell.py): for rules
+        about *what* is written, f(x) is x."""
+        from .respell import respelling, json_alphabet
+        r = respelling(self, f, json_alphabet(arg))
+        return r is not None and r[0] == 'yes'
 
     def options(self):
         """opts._options table: name -> dict(type, default(ast), choices)."""
